@@ -205,14 +205,14 @@ def _slide_to_contact(A_world, specB, dimsB, yprB, origin, u, tmax):
     def apart(t):
         Bw = specB.world(dimsB, origin + t * u, yprB)
         lo, hi = go.distance_bracket(A_world, Bw)
-        return lo > 1e-9
+        return lo > 1e-7
 
     if apart(0.0):
         return None
     lo_t, hi_t = 0.0, tmax
     if not apart(hi_t):
         return tmax
-    for _ in range(34):
+    for _ in range(26):
         mid = (lo_t + hi_t) / 2
         if apart(mid):
             hi_t = mid
